@@ -201,6 +201,10 @@ func (s *String) GetRange(start, end int64) []byte {
 	if start >= int64(len(s.V)) {
 		return nil
 	}
+	if end >= bl {
+		// everything up to the last byte; also keeps end+1 from overflowing for end = MaxInt64
+		end = bl - 1
+	}
 	end += 1
 	if end <= 0 {
 		end += bl
